@@ -27,6 +27,7 @@ ASSUMPTIONS = [
     "max_iter: MAX_ITER is accepted only when the limit is <= the number of nodes reachable from the source; a definitive answer under a limit must still be correct",
     "bfs/dfs with goal=None: the documented reachable set is compared (shared-input agreement)",
 ]
+QUICK_SCALE = 2.5  # quick-tier multiplier (idle 16-core timing: ~10 s at scale 1)
 STRATA = [
     ("random", 900, 9000),
     ("zero-ties", 700, 7000),
